@@ -555,8 +555,8 @@ func runMarshal(c *Ctx) {
 	c.marshalCase(&node{kind: 'A', typ: '%', kids: []*node{{kind: 'S', typ: '$', s: "k1"}, wideOf('~', 1500, true), {kind: 'S', typ: '$', s: "k2"}, wideOf('%', 1026, true)}}, false)
 	c.marshalCase(&node{kind: 'A', typ: '*', kids: []*node{{kind: 'A', typ: '*', kids: []*node{wideOf('*', 1030, false), {kind: 'I', typ: ':', i: -1}}}, {kind: 'S', typ: '$', s: "tail"}}}, false)
 	if c.Tier == "thorough" {
-		c.marshalCase(wideOf('*', 20000, true), false)
-		c.marshalCase(&node{kind: 'A', typ: '~', kids: append([]*node{wideOf('%', 2*5000, true)}, after...)}, false)
+		c.marshalCase(wideOf('*', 6000, true), false)
+		c.marshalCase(&node{kind: 'A', typ: '~', kids: append([]*node{wideOf('%', 2*2500, true)}, after...)}, false)
 	}
 }
 
